@@ -77,8 +77,6 @@ Qed.
 Lemma commands_of_inj l : commands_of (map (fun c => VO (OCommand c)) l) = Some l.
 Proof. induction l as [|a r IH]; [reflexivity|]. cbn. rewrite IH. reflexivity. Qed.
 
-Lemma zs_eqb_bytes_eqb a : forall b, @zs_eqb a b = bytes_eqb a b.
-Proof. induction a as [|x a IH]; intros [|y b]; cbn; rewrite ?IH; reflexivity. Qed.
 
 Definition vt_body : list pstmt :=
   [ SIf (PCmp "<" (PCall "len" [(PName "view")]) (PInt 4)) [ SRaise "ValueError" ] [];
@@ -110,7 +108,7 @@ Lemma flow_vt_unpack mf fuel data :
 Proof.
   unfold verification_trailer_unpack, k_flow_vt_unpack.
   match goal with |- context [SWhile ?a ?b] => remember (SWhile a b) as loop end.
-  tie1. rewrite zs_eqb_bytes_eqb. destruct (negb (bytes_eqb _ _)) eqn:Hs; tie1.
+  tie1. destruct (negb (bytes_eqb _ _)) eqn:Hs; tie1.
   subst loop. rewrite exec_while. fold vt_body.
   match goal with |- context [while_loop _ _ _ _ _ ?env] =>
     pose proof (vt_while mf fuel fuel (slice (Some 8) None data) [] 0 env) as HL end.
